@@ -56,6 +56,8 @@ impl WaitGroup {
     // - Acquire ensures that subsequent reads (in wait) see the decremented value.
     // - Release ensures that operations before done() are visible to tasks released by wait().
     let old_count = self.count.fetch_sub(1, Ordering::AcqRel);
+    #[cfg(rzmq_verif)]
+    crate::verif::sched::point("wg.done.decremented");
 
     if old_count == 0 {
       // This should not happen if add/done are used correctly.
@@ -80,6 +82,8 @@ impl WaitGroup {
       tracing::trace!("WaitGroup::wait() called when count is already zero");
       return;
     }
+    #[cfg(rzmq_verif)]
+    crate::verif::sched::point("wg.wait.fast_checked");
 
     // Slow path: Wait for notification.
     loop {
@@ -92,6 +96,8 @@ impl WaitGroup {
         return;
       }
       tracing::trace!("WaitGroup::wait() woke, but count is non-zero; re-waiting");
+      #[cfg(rzmq_verif)]
+      crate::verif::sched::point("wg.wait.loop_checked");
       // If count is still non-zero, loop and wait again.
     }
   }
